@@ -193,15 +193,19 @@ impl World {
         rep
     }
 
-    /// Length of the storage trace this backup would have, measured on a copy of the archive.
-    pub fn measure_backup(&mut self, o: Opts) -> usize {
+    /// The storage trace this backup would have, measured on a copy of the archive.
+    pub fn measure_trace(&mut self, o: Opts) -> Vec<Ev> {
         let copy = self.sc.fresh("probe");
         fmt06::copy_dir(&self.arch, &copy);
         let ic = Icept::new(&copy, Mode::Log, 0);
         let _ = cs::backup(ic.transport(1), &self.src, o, &[], None);
-        let n = ic.n_ops();
+        let log = ic.log();
         crate::scratch::rm(&copy);
-        n
+        log
+    }
+
+    pub fn measure_backup(&mut self, o: Opts) -> usize {
+        self.measure_trace(o).len()
     }
 
     /// A backup that is killed before storage operation k (optionally leaving the torn file).
